@@ -76,12 +76,12 @@ theorem sk_calcCallGas (h : KeptB fl s0 s) (r : HostResp) (ie ht : Bool) (l : Na
 theorem callI_strict (s : IState) : SOutcome s (callI s) := by
   unfold callI
   have h := KeptB.refl s
-  refine hostCallAction_strict (fl := ?fl) (fl' := true) ?_ (fun b r s' h => ?_)
+  refine hostCallAction_strict (fl := ?fl) (fl' := true) ?_ (fun b r s' hrok h => ?_)
   rotate_left
   · sk_auto
   · obtain ⟨lgl, to, value, input, rs, re⟩ := b
     dsimp only
-    refine sk_bind (sk_requireSome h r) (fun _ s1 h1 _ => ?_)
+    refine sk_bind (sk_requireSome h r hrok) (fun _ s1 h1 _ => ?_)
     refine sk_bind (sk_calcCallGas h1 r _ (decide (value ≠ 0)) _) (fun gl s2 h2 hq => ?_)
     refine sk_bind (sk_gasCharge h2 gl) (fun _ s3 h3 hq3 => ?_)
     refine sk_bind (sk_getS h3) (fun y s4 h4 hy => ?_)
@@ -102,12 +102,12 @@ theorem callI_strict (s : IState) : SOutcome s (callI s) := by
 theorem callcodeI_strict (s : IState) : SOutcome s (callcodeI s) := by
   unfold callcodeI
   have h := KeptB.refl s
-  refine hostCallAction_strict (fl := ?fl) (fl' := true) ?_ (fun b r s' h => ?_)
+  refine hostCallAction_strict (fl := ?fl) (fl' := true) ?_ (fun b r s' hrok h => ?_)
   rotate_left
   · sk_auto
   · obtain ⟨lgl, to, value, input, rs, re⟩ := b
     dsimp only
-    refine sk_bind (sk_requireSome h r) (fun _ s1 h1 _ => ?_)
+    refine sk_bind (sk_requireSome h r hrok) (fun _ s1 h1 _ => ?_)
     refine sk_bind (sk_calcCallGas h1 r _ (decide (value ≠ 0)) _) (fun gl s2 h2 hq => ?_)
     refine sk_bind (sk_gasCharge h2 gl) (fun _ s3 h3 hq3 => ?_)
     refine sk_bind (sk_getS h3) (fun y s4 h4 hy => ?_)
@@ -128,12 +128,12 @@ theorem callcodeI_strict (s : IState) : SOutcome s (callcodeI s) := by
 theorem delegatecallI_strict (s : IState) : SOutcome s (delegatecallI s) := by
   unfold delegatecallI
   have h := KeptB.refl s
-  refine hostCallAction_strict (fl := ?fl) (fl' := true) ?_ (fun b r s' h => ?_)
+  refine hostCallAction_strict (fl := ?fl) (fl' := true) ?_ (fun b r s' hrok h => ?_)
   rotate_left
   · sk_auto
   · obtain ⟨lgl, to, input, rs, re⟩ := b
     dsimp only
-    refine sk_bind (sk_requireSome h r) (fun _ s1 h1 _ => ?_)
+    refine sk_bind (sk_requireSome h r hrok) (fun _ s1 h1 _ => ?_)
     refine sk_bind (sk_calcCallGas h1 r _ _ _) (fun gl s2 h2 hq => ?_)
     refine sk_bind (sk_gasCharge h2 gl) (fun _ s3 h3 hq3 => ?_)
     refine sk_bind (sk_getS h3) (fun y s4 h4 hy => ?_)
@@ -147,12 +147,12 @@ theorem delegatecallI_strict (s : IState) : SOutcome s (delegatecallI s) := by
 theorem staticcallI_strict (s : IState) : SOutcome s (staticcallI s) := by
   unfold staticcallI
   have h := KeptB.refl s
-  refine hostCallAction_strict (fl := ?fl) (fl' := true) ?_ (fun b r s' h => ?_)
+  refine hostCallAction_strict (fl := ?fl) (fl' := true) ?_ (fun b r s' hrok h => ?_)
   rotate_left
   · sk_auto
   · obtain ⟨lgl, to, input, rs, re⟩ := b
     dsimp only
-    refine sk_bind (sk_requireSome h r) (fun _ s1 h1 _ => ?_)
+    refine sk_bind (sk_requireSome h r hrok) (fun _ s1 h1 _ => ?_)
     refine sk_bind (sk_calcCallGas h1 r _ _ _) (fun gl s2 h2 hq => ?_)
     refine sk_bind (sk_gasCharge h2 gl) (fun _ s3 h3 hq3 => ?_)
     refine sk_bind (sk_getS h3) (fun y s4 h4 hy => ?_)
@@ -187,7 +187,7 @@ theorem createI_strict (c2 : Bool) (s : IState) : SOutcome s (.pure (createI c2 
 theorem eofcreateI_strict (s : IState) : SOutcome s (eofcreateI s) := by
   unfold eofcreateI
   have h := KeptB.refl s
-  refine hostCallAction_strict (fl := true) (fl' := true) ?_ (fun b r s' h => ?_)
+  refine hostCallAction_strict (fl := true) (fl' := true) ?_ (fun b r s' hrok h => ?_)
   · unfold eofcreatePre
     refine sk_bind (by sk_prim) (fun _ _ _ _ => ?_)
     refine sk_bind (by sk_prim) (fun _ _ _ _ => ?_)
